@@ -13,7 +13,7 @@ SELF = {"gfa1": ["P\tX9\tX9+,A-\t*", "P\tX9\tA+,X9+\t*", "P\tX9\tA+,B+,X9-\t*", 
                  "C\tA\t+\tX9\t+\t0\t*\tID:Z:X9"],
         "gfa2": ["E\tX9\tX9+\tA+\t0\t2\t0\t2\t*", "E\tX9\tA+\tX9-\t0\t2\t0\t2\t*", "G\tX9\tX9+\tA-\t3\t*", "G\tX9\tA+\tX9-\t3\t*", "O\tX9\tA+ X9+", "O\tX9\tX9+", "O\tX9\tX9- A+ B+",
                  "U\tX9\tA X9", "U\tX9\tX9", "U\tX9\tA B X9"]}
-BASES = {"gfa1": [["sA", "sB", "sC"], ["sA", "sB", "sC", "l1", "l10", "c2", "p1"], ["sA", "sB", "sC", "l1", "l7", "p2", "p4"],
+BASES = {"gfa1": [["sA", "sB", "sC"], ["raw:S\tA\t*\tLN:i:8", "raw:S\tB\t*\tLN:i:8", "raw:L\tA\t+\tB\t+\t2M", "raw:C\tA\t+\tB\t+\t1\t2M", "raw:L\tB\t+\tA\t+\t3M\tID:Z:lk", "raw:P\tp1\tA+,B+\t2M"],   # every segment has a length: convertible ["sA", "sB", "sC", "l1", "l10", "c2", "p1"], ["sA", "sB", "sC", "l1", "l7", "p2", "p4"],
                   ["sA", "sB", "sC", "l10", "raw:P\tpv\tC+,A-\t*"],             # a path read before its link: a virtual link C+ A- exists
                   ["sA", "raw:L\tA\t+\t4\t+\t*", "raw:S\t3\t*"]],               # a segment known only by a mention (placeholder) with an integer-looking name
          "gfa2": [["sA", "sB", "sC"], ["sA", "raw:E\t*\tA+\t4-\t0\t2\t0\t2\t*", "raw:S\t3\t8\t*"], ["sA", "sB", "sC", "e1", "g1", "o1", "u1"], ["sA", "sB", "sC", "e1", "e6", "ua", "ub", "oa", "ob", "u4", "u1"]]}
@@ -94,8 +94,15 @@ def check(case):
             ok = False
         except gfapy.Error as e:
             ok = None
-            if prev is None and not (new == "*" and tm.find(old).rt in ("S", "P", "L", "C")):
+            listed = any(m == old and role != "seg" or m == old and tm.find(old).rt in ("E", "G", "O", "U") for x in tm.recs if x.rt in ("O", "U") for m, role in tm.mentions(x))
+            if new == "*" and tm.find(old).rt in ("E", "G", "O", "U") and listed:
+                # groups mention the line by this identifier: it cannot be taken away (refused, nothing changed)
+                if sorted(str(x) for x in state.registered(g) if x is not target) != others_before or g.line(old) is not target:
+                    fail("refused-rename-changed-the-Gfa", "%s -> %s" % (old, new))
+            elif prev is None and not (new == "*" and tm.find(old).rt in ("S", "P", "L", "C")):
                 fail("rename-raises-%s" % type(e).__name__, "%s -> %s: %s" % (old, new, harness.short(e, 150)))
+        if ok is True and new == "*" and tm.find(old).rt in ("E", "G", "O", "U") and any(m == old for x in tm.recs if x.rt in ("O", "U") for m, role in tm.mentions(x)):
+            fail("identifier-removed-under-a-group", "%s -> * although groups list %s: %r" % (old, old, [x for x in str(g).split("\n") if "INVALID" in x][:2]))
         if getattr(prev, "virtual", False) and tm.find(old).rt == "S":
             prev = None if ok else prev          # a segment renamed onto an identifier known only by mention: taking it over or refusing are both admissible
         if ok is True and prev is not None and prev is not tm.find(old) and not (prev.rt in ("O", "U") and prev.rt == tm.find(old).rt):
@@ -119,6 +126,24 @@ def check(case):
         except gfapy.Error:
             if sorted(g.names) != before:
                 fail("self-reference-refused-but-names-changed:%s" % op[1][0], "%r: %r -> %r" % (op[1], before, sorted(g.names)))
+    elif op[0] == "convert":
+        # a whole-graph conversion is a view: afterwards the namespace is what it was, every identifier written on a line is found, fresh names are fresh
+        before = (sorted(g.names), str(g))
+        try:
+            g.to_gfa2_s() if version == "gfa1" else g.to_gfa1_s()
+            if op[1] == "gfa":
+                g.to_gfa2() if version == "gfa1" else g.to_gfa1()
+        except gfapy.Error:
+            pass
+        if (sorted(g.names), str(g)) != before:
+            fail("conversion-changes-the-namespace", "names %r -> %r" % (before[0], sorted(g.names)))
+        for x in state.registered(g):
+            idt = x.get("ID") if x.record_type in ("L", "C") else None
+            if idt is not None and g.line(idt) is not x:
+                fail("identifier-on-a-line-not-found", "%s carries %r, line(%r) is %r" % (x, idt, idt, g.line(idt)))
+        n = g.unused_name()
+        if g.line(n) is not None or n in g.names or any(x.get("ID") == n for x in state.registered(g) if x.record_type in ("L", "C")):
+            fail("unused_name-in-use-after-conversion", n)
     elif op[0] == "unused":
         for _ in range(3):
             n = g.unused_name()
@@ -153,6 +178,7 @@ def cases(tier, seed):
                     if new != old:
                         out.append((version, ids, ("rename", old, new)))
             out.append((version, ids, ("unused",)))
+            out.append((version, ids, ("convert", "text"))); out.append((version, ids, ("convert", "gfa")))
             for text in SELF[version]:
                 out.append((version, ids, ("addself", text)))
     return out
@@ -163,7 +189,7 @@ if __name__ == "__main__":
     cs = cases(tier, seed)
     res = harness.run(cs, check,
                       rule="3 catalogue states per version x (add of every identified record type | rename of every identified line) x every identifier class "
-                           "(each identifier in use, fresh, '*', integer-looking '7' '007' '12') + unused_name() + lines naming their own identifier in each reference field, single or list item (refused, names unchanged); expected: NotUniqueError iff the identifier is in use (U/O onto the same group type may merge); "
+                           "(each identifier in use, fresh, '*', integer-looking '7' '007' '12') + unused_name() + whole-graph conversion to the other version (namespace unchanged, identifiers found, fresh names fresh) + lines naming their own identifier in each reference field, single or list item (refused, names unchanged); expected: NotUniqueError iff the identifier is in use (U/O onto the same group type may merge); "
                            "afterwards UNIQ (pairwise distinct identifiers, line(id) returns the carrier, names without duplicates) and WF hold; a successful rename equals substitution in the text model",
                       bound="single add/rename per state; exhaustive over the identifier pool", exhaustive=True)
     harness.emit(res)
